@@ -82,6 +82,10 @@ Definition spec_builder_ok (ops : list bop) (o : list bout) : bool :=
 Definition doc_prefix (gp : option bytes) (name : bytes) : option bytes :=
   if has_prefix client_prefix name then None else gp.
 
+(* the name under which a metric registered as [name] goes out of an exporter with global prefix [gp] *)
+Definition e2e_name (gp : option bytes) (name : bytes) : bytes :=
+  match doc_prefix gp name with Some p => p ++ 46 :: name | None => name end.
+
 Definition expected_op (f : fcfg) (m : metric) : op :=
   let ts := if f_aggressive f then Some (f_now f) else None in
   match m with
